@@ -153,6 +153,42 @@ func runC09(p *C09Plan, ch *simrt.Choices) *c09Run {
 				return
 			}
 		}
+		// (b') truncation of messages that carry an undecodable set: cut inside
+		// that set, the octets of its body must never be decoded as records
+		for ii, ins := range p.Inserts {
+			if ii >= 4 && !p.AllOffsets {
+				break
+			}
+			m2 := *p.Msg.Abs
+			pos := ins.Pos % (len(m2.Sets) + 1)
+			m2.Sets = append(append(append([]model.Set(nil), m2.Sets[:pos]...), ins.Set), m2.Sets[pos:]...)
+			d2 := Delivery{Abs: &m2}
+			body := encodeFlowInOrder(&d2, p.Exporter.Addr, cache)
+			if len(body) > 4000 {
+				continue
+			}
+			full, fullNil, _ := dec.records(body)
+			if fullNil {
+				continue
+			}
+			for k := 0; k <= len(body); k++ {
+				if k%64 == 0 {
+					simrt.Yield(-70)
+				}
+				simrt.Refill()
+				res.Truncs++
+				got, _, _ := dec.records(body[:k])
+				bad := len(got) > len(full)
+				for i := 0; !bad && i < len(got); i++ {
+					bad = got[i] != full[i]
+				}
+				if bad {
+					res.Findings = append(res.Findings, fileFinding{"truncation-fabricates", p.Proto + ": cut inside a message with an undecodable set",
+						fmt.Sprintf("message with an undecodable set (id %d) cut at octet %d of %d: %d records emitted that are not a prefix of the complete message's %d records\n%s", insID(p.Proto, &ins.Set), k, len(body), len(got), len(full), firstDiff(got, full))})
+					return
+				}
+			}
+		}
 		// (b) truncation at every offset
 		var ks []int
 		if p.AllOffsets {
@@ -285,6 +321,17 @@ func genC09Plan(seed int64, tier string) *C09Plan {
 			s = model.Set{Kind: model.SetRaw, RawID: uint16(1000 + r.Intn(60000))}
 			s.RawBody = make([]byte, r.Intn(48))
 			r.Read(s.RawBody)
+			if r.Intn(2) == 0 {
+				// the body looks like a complete data set of a template the exporter
+				// has announced (followed by a few more octets)
+				t := &tpls[r.Intn(len(tpls))]
+				ds, _ := g.DataSet(t, 1+r.Intn(2), 200)
+				inner := &model.Msg{Proto: mp, Sets: []model.Set{ds}}
+				enc, so := inner.Encode(func(uint16) *model.Template { return t })
+				if len(so.Start) == 1 {
+					s.RawBody = append(append([]byte(nil), enc[so.Start[0]:so.End[0]]...), s.RawBody[:len(s.RawBody)%12]...)
+				}
+			}
 		default:
 			s = model.Set{Kind: model.SetData, TplID: 400}
 			n := 1 + r.Intn(3)
